@@ -2,7 +2,7 @@ import BsVerif.Core.Proto
 import BsVerif.Model.DapArgs
 /-! Line-protocol adapter of the DAP argument-decoding model (C08, DAP leg).
 
-`C08D new <sid> <asfound|repaired>`                    → `ok` (fresh session)
+`C08D new <sid> <current|asfound|repaired>`            → `ok` (fresh session; `current` = the code as it is)
 `C08D msg <class> <trans> <t0|t1> <json tokens ...>`   → outcome class of the message
 
 The first three tokens after `msg` are hints written by the harness from the observed wire: the class of the
@@ -75,6 +75,7 @@ def parseKVs : Nat → Nat → List String → Option (List (List Char × J) × 
 end
 
 def step (st : St) : List String → St × String
+  | ["new", _, "current"] => ({ q := current, s := {} }, "ok")
   | ["new", _, "asfound"] => ({ q := asFound, s := {} }, "ok")
   | ["new", _, "repaired"] => ({ q := repaired, s := {} }, "ok")
   | "msg" :: cls :: trans :: tg :: toks =>
